@@ -467,3 +467,95 @@ static void run_c09_rearm(void)
     wl_rt_stop(rt);
 }
 SIM_WORKLOAD("C09", "eventual-rearm", run_c09_rearm, 6)
+
+/* ------------------------------------------------------------------ hand-off: the waiter owns the object
+ * A one-shot eventual or future is created by the caller that waits for it and freed by that
+ * caller as soon as its wait has returned; the setter does not touch the object after its set
+ * call.  At that moment the setter may still be inside ABT_eventual_set / ABT_future_set
+ * (it has released the waiter, but not yet finished with the object): the free must wait for
+ * it.  Nothing of an old object may be written after its memory was released (the allocation
+ * ledger's poison shows it), and each new object works. */
+static struct {
+    wl_rt rt;
+    int rounds, is_future, k;
+    volatile ABT_eventual ev;
+    volatile ABT_future fut;
+    volatile int published, consumed;
+    wl_actor A[2];
+} HO;
+static void ho_waiter(wl_actor *a)
+{
+    for (int r = 0; r < HO.rounds; r++) {
+        a->cur_op = r;
+        if (HO.is_future) {
+            ABT_future f;
+            ABT_OK(ABT_future_create((uint32_t)HO.k, NULL, &f));
+            HO.fut = f;
+            HO.published = r + 1;
+            ABT_OK(ABT_future_wait(f));
+            ABT_OK(ABT_future_free(&f));
+        } else {
+            ABT_eventual e;
+            ABT_OK(ABT_eventual_create(8, &e));
+            HO.ev = e;
+            HO.published = r + 1;
+            void *buf = NULL;
+            ABT_OK(ABT_eventual_wait(e, &buf));
+            SIM_CHECK(buf && *(volatile uint64_t *)buf == 0x40ULL + (uint64_t)r, "eventual:value", "hand-off round %d: the waiter read %#lx", r, buf ? (unsigned long)*(uint64_t *)buf : 0UL);
+            ABT_OK(ABT_eventual_free(&e));
+        }
+        HO.consumed = r + 1;
+        sim_progress();
+        for (int k = 0; k < (a->args[0] & 3); k++)
+            wl_actor_pause(a, 1);
+    }
+}
+static void ho_setter(wl_actor *a)
+{
+    for (int r = 0; r < HO.rounds; r++) {
+        a->cur_op = r;
+        while (HO.published < r + 1)
+            wl_actor_pause(a, 1);
+        for (int k = 0; k < (a->args[0] & 7); k++)
+            wl_actor_pause(a, 1);
+        if (HO.is_future) {
+            ABT_future f = HO.fut;
+            for (int i = 0; i < HO.k; i++)
+                ABT_OK(ABT_future_set(f, (void *)(long)(i + 1)));
+        } else {
+            uint64_t v = 0x40ULL + (uint64_t)r;
+            ABT_OK(ABT_eventual_set(HO.ev, &v, 8));
+        }
+        sim_progress();
+    }
+}
+static void ho_diag(char *buf, int sz)
+{
+    int k = snprintf(buf, (size_t)sz, "hand-off %s rounds=%d published=%d consumed=%d ", HO.is_future ? "future" : "eventual", HO.rounds, HO.published, HO.consumed);
+    wl_actors_diag(HO.A, 2, buf + k, sz - k);
+}
+static void run_c09_handoff(void)
+{
+    memset(&HO, 0, sizeof HO);
+    sim_set_diag_cb(ho_diag);
+    wl_rt *rt = &HO.rt;
+    wl_rt_start(rt, WL_RT_NO_TOPO2);
+    HO.is_future = plan_bool();
+    HO.k = plan_range(1, 3);
+    HO.rounds = plan_range(1, sim_limit("rounds", 4));
+    sim_note("C09 hand-off %s k=%d rounds=%d: ", HO.is_future ? "future" : "eventual", HO.k, HO.rounds);
+    for (int i = 0; i < 2; i++) {
+        wl_actor *a = &HO.A[i];
+        a->id = i;
+        a->kind = plan_n(3) == 0 ? AK_EXT : AK_ULT;
+        a->pool = (int)plan_n((uint32_t)rt->npools);
+        a->body = i == 0 ? ho_waiter : ho_setter;
+        a->args[0] = (int)plan_n(8);
+        sim_note("%s:%s@%d ", i == 0 ? "waiter" : "setter", wl_actor_kind_names[a->kind], a->pool);
+    }
+    wl_actors_spawn(rt, HO.A, 2);
+    wl_actors_join(rt, HO.A, 2);
+    sim_count("c09.objects_freed_by_their_waiter", (uint64_t)HO.rounds);
+    wl_rt_stop(rt);
+}
+SIM_WORKLOAD("C09", "waiter-frees", run_c09_handoff, 4)
